@@ -122,6 +122,14 @@ def boundary_cases(rng, thorough):
                 "a" + " of a" * (n // 5), "1" + " -> m" * (n // 5), "degC " * (n // 5) + "1", "1" + " mod 2" * (n // 6), "m" + " m" * (n // 2),
                 "1" + ";1" * (n // 2), "1 -> " + "m;" * (n // 3) + "m", "x = " * (n // 4) + "1", "'" * n, "#" * n, "\\" * n, "1e" * (n // 2),
                 "0x" + "F" * (n - 2), "1" * n, "1." + "1" * (n - 2), "1e-" + "9" * 20, "." * n, "H" + "2O" * (n // 2), "C" * n, "[" * n, "{" * n]
+    # arithmetic between substances (amounts of equal, different and no dimensionality; formulas)
+    subs = ["water", "sodium", "(1 m sodium)", "(1 s potassium)", "(2 kg gold)", "(2 sodium)", "H2O", "NaCl", "(3 mol water)", "(0 water)"]
+    for a in subs:
+        for b in subs:
+            for op in ["+", "-", "*", "/", "mod", "^", "and", "<<", ""]:
+                out.append("%s %s %s" % (a, op, b))
+        out += ["-%s" % a, "sqrt(%s)" % a, "%s -> %s" % (a, subs[(subs.index(a) + 3) % len(subs)]), "mass of (%s + %s)" % (a, a), "%s + 1" % a, "1 m + %s" % a,
+                "%s ^ 2" % a, "2 ^ %s" % a, "hypot(%s, %s)" % (a, a), "%s -> kg;g" % a, "now + %s" % a]
     # display suffixes of a conversion with every boundary argument, in the long and the fused spelling
     for n in ["0", "1", "2", "36", "37", "40", "64", "99", "200", "255", "256", "65536", "-1", "99999999999", "4294967298"]:
         out += ["255 -> base%s" % n, "255 -> base %s" % n, "1|3 -> digits %s" % n, "1|3 -> digits base%s" % n, "1|3 -> digits %s base %s" % (n, n),
